@@ -29,9 +29,10 @@ from .bitstate import State, Joiner, model_of, UNIVERSE
 from .bitexpr import ExprMixin
 from .bitcall import CallMixin
 from .bitstmt import StmtMixin
+from .bitobj import ObjMixin
 
 
-class Interp(ExprMixin, CallMixin, StmtMixin, Joiner):
+class Interp(ExprMixin, CallMixin, StmtMixin, ObjMixin, Joiner):
     """One interpreter per binding; collects mask events, refusal sites and problems."""
 
     def __init__(self, facts):
